@@ -81,7 +81,13 @@ fn gen(seed: u64, idx: u64, _tier: Tier) -> Plan {
             for k in 0..(workers * 3 + rng.below(8)) {
                 // SRV variants: correct, wrong, absent
                 ctr += 1;
-                let req = match rng.below(6) {
+                let req = match rng.below(7) {
+                    // a classic request that also names draft-13: still a classic request, to be
+                    // answered (if at all) with the classic certificate
+                    6 => ReqSpec::Mutant {
+                        base: Box::new(ReqSpec::Valid { proto: P::Classic, size: 1024, nonce_seed: ctr, srv: SrvMode::Absent, vers: vec![] }),
+                        muts: vec![Mutation::PutField { tag: r::VER, value: r::VER_DRAFT13.to_le_bytes().to_vec() }],
+                    },
                     0 => ReqSpec::RawVer { size: 1024, nonce_seed: ctr, ver: Some(r::VER_DRAFT13.to_le_bytes().to_vec()), srv: SrvMode::Correct },
                     1 => ReqSpec::RawVer { size: 1024, nonce_seed: ctr, ver: Some(r::VER_DRAFT13.to_le_bytes().to_vec()), srv: if rng.chance(1, 2) { SrvMode::Other(rng.next_u64()) } else { SrvMode::BitFlip(rng.below(256) as u16) } },
                     _ => valid_spec(&mut rng, &mut ctr),
